@@ -111,6 +111,10 @@ func (ch c19) server(cfg c19cfg) *hs.Env {
 			return nil
 		}))
 	}
+	if cfg.Hook && cfg.N%2 == 0 {
+		// a second, different hook option registered behind it must not take its place
+		opts = append(opts, wire.CloseConn(func(ctx context.Context) error { return nil }))
+	}
 	opts = append(opts, wire.GlobalParameters(wire.Parameters{"application_name": "verif"}))
 	check := func(ctx context.Context, where string) {
 		st := hs.ConnOf(ctx).User.(*c19conn)
